@@ -304,6 +304,20 @@ def _min_face_normal(points):
     return best
 
 
+def _flatness(points):
+    """|det(b-a, c-a, d-a)| / (longest edge)^3 of a 4-point configuration
+    (inf otherwise): the four plane tests of the Jolt solver compare signed
+    volumes with an absolute EPSILON; for a nearly flat tetrahedron they are
+    rounding noise of the size of its volume."""
+    if len(points) != 4:
+        return np.inf
+    P = np.array(points, dtype=float)
+    e = max(float(np.linalg.norm(P[i] - P[j])) for i, j in itertools.combinations(range(4), 2))
+    if e == 0.0:
+        return np.inf
+    return abs(float(np.linalg.det(P[1:] - P[0]))) / e ** 3
+
+
 def match_known(f, case, known):
     """C18-K1: the original GJK's backup procedure compares cofactor-like
     quantities (which scale with size^6) with an absolute 10*eps; for
@@ -314,6 +328,7 @@ def match_known(f, case, known):
             (_min_gram_det(case["points"]) < 1e-9 or _min_gram_det(case["points"], relative=True) < 1e-6):
         return "C18-K1"
     if "C18-K2" in ids and f["bucket"].startswith("jolt/") and \
-            (m <= 1e-5 or _min_gram_det(case["points"]) <= 1e-26 or _min_face_normal(case["points"]) <= 1e-7):
+            (m <= 1e-5 or _min_gram_det(case["points"]) <= 1e-26 or _min_face_normal(case["points"]) <= 1e-7
+             or 0.0 < _flatness(case["points"]) <= 1e-9):
         return "C18-K2"
     return None
